@@ -46,6 +46,12 @@ type c10World struct {
 func (c *c10World) note(f string, a ...interface{}) { c.log = append(c.log, fmt.Sprintf(f, a...)) }
 
 func (c *c10World) block(dt int64) {
+	if c.now+dt > maxNowNs {
+		dt = maxNowNs - c.now
+		if dt < 0 {
+			dt = 0
+		}
+	}
 	c.now += dt
 	c.height++
 	bctx := c.ctx.WithBlockTime(nsTime(c.now)).WithBlockHeight(c.height).WithEventManager(sdk.NewEventManager())
